@@ -42,6 +42,8 @@ Skew(c) == CASE c = "cx" -> 30 [] c = "cn" -> 7 [] OTHER -> 0
 \* post-logout redirects. "ucwG" names a URI matched by the login pattern only, "plcwG" one matched by the post-logout pattern only.
 LoginGlob(c) == IF c = "cw" THEN {"ucwG"} ELSE {}
 PLGlob(c)    == IF c = "cw" THEN {"plcwG"} ELSE {}
+\* "plcxNear": a URI nobody registered that differs from plcx (a registered URI WITH a query component) in one character: the "?"
+\* - what a registered URI read as a pattern would also match
 PostLogoutOK(c, u) == u \in Reg[c].postLogout \cup PLGlob(c)
 
 \* Credential presentations. kind: none | basic | post | assertion ; secret: right | wrong ;
